@@ -170,8 +170,9 @@ def rule_order(E, R):
             continue
         for ix in exprs(hb["body"], "Index"):
             base = strip(ix["e"])
+            bt = norm(base.get("ty", "") + " " + base.get("aty", ""))
             is_lm = (base.get("k") == "Field" and base.get("name") == "list_matchers") or \
-                    ("ListMatcher" in base.get("ty", "") and base.get("k") == "Field" and base.get("name") == "1")
+                    ("[alloc::boxed::Box<dyn list_matcher::ListMatcher" in bt)
             if not is_lm:
                 continue
             n += 1
